@@ -575,9 +575,12 @@ func (w *world) nested() func() {
 				w.nestErr = fmt.Sprintf("a CBC round trip made by the peer from inside a stream call failed: %v", err)
 			}
 		}
+		// plain readers and writers (no WriteTo / ReadFrom short cuts), like the outer peers
 		var a, b bytes.Buffer
-		if err := cryptz.EncryptStreamTo(&a, bytes.NewReader(msg), sec); err == nil {
-			if err := cryptz.DecryptStreamTo(&b, bytes.NewReader(a.Bytes()), sec); (err != nil || !bytes.Equal(b.Bytes(), msg)) && w.nestErr == "" {
+		type ro struct{ io.Reader }
+		type wo struct{ io.Writer }
+		if err := cryptz.EncryptStreamTo(wo{&a}, ro{bytes.NewReader(msg)}, sec); err == nil {
+			if err := cryptz.DecryptStreamTo(wo{&b}, ro{bytes.NewReader(a.Bytes())}, sec); (err != nil || !bytes.Equal(b.Bytes(), msg)) && w.nestErr == "" {
 				w.nestErr = fmt.Sprintf("a stream round trip made by the peer from inside a stream call failed: %v", err)
 			}
 		}
